@@ -73,7 +73,12 @@ type MapDataProvider[T any] struct {
 }
 
 func (m *MapDataProvider[T]) Get(key string) any {
-	return any(m.M[key])
+	// a missing key is absent (nil), not the element type's zero value: 0 and false are present values in Parse
+	v, ok := m.M[key]
+	if !ok {
+		return nil
+	}
+	return any(v)
 }
 
 // returns value + key used
